@@ -862,6 +862,37 @@ class T:
         f = self.f
         return T(lambda t: z3.If(n(t) if callable(n) else n, coerce(v, self.dtype), f(t)), self.dtype, self.tlen, self.taxis, self.eshape)
 
+    def _inplace(self, r):
+        self.f, self.dtype, self.nan = r.f, r.dtype, r.nan
+        return self
+
+    def clamp_max_(self, m):
+        return self._inplace(self.clamp_max(m))
+
+    def clamp_min_(self, m):
+        return self._inplace(self.clamp_min(m))
+
+    def clamp_(self, min=None, max=None):
+        return self._inplace(self.clamp(min=min, max=max))
+
+    def new_empty(self, *shape, dtype=None, **kw):
+        from .interp import StarArg
+
+        shape = [x for x in shape]
+        first = shape[0]
+        ex = cur()
+        tag = tag_of(dtype) if dtype is not None else self.dtype
+        fn = z3.Function(ex.fresh_name("new_empty"), z3.IntSort(), _sort_for(tag))
+        return T(lambda t: fn(t), tag, first, "first", self.eshape)
+
+    def new_zeros(self, *shape, dtype=None, **kw):
+        tag = tag_of(dtype) if dtype is not None else self.dtype
+        zv = coerce(z3.IntVal(0), tag)
+        return T(lambda t: zv, tag, shape[0], "first", self.eshape)
+
+    def cumsum(self, dim=0):
+        raise Unsupported("cumsum (needs an inductive summary)")
+
     def fill_(self, v):
         zv = coerce(num(v) if not isinstance(v, bool) else z3.BoolVal(v), self.dtype)
         if self.tlen is None:
